@@ -76,5 +76,5 @@ type (
 )
 
 func (p *PersistedPacket) HasExpired(maxDisconnectDuration time.Duration) bool {
-	return time.Now().Before(p.EmittedAt.Add(maxDisconnectDuration))
+	return time.Now().After(p.EmittedAt.Add(maxDisconnectDuration))
 }
